@@ -45,6 +45,16 @@ def load_fonts():
         _FONTS["tiny:" + pname] = tinyfont.build_bytes(spec)
     _FONTS["tiny:vmtx-kern-post3"] = tinyfont.build_bytes({"kind": "ttf", "shapes": "mixed", "vmtx": True, "post3": False, "composite": True,
                                                            "kern": [["a", "b", -30], ["c", "a", 25]], "fea": tinyfont.FEA_BASIC, "glyphs": ["a", "b", "c", "d", "e", "f"]})
+    # anchor arrays that START with a NULL anchor: a base / ligature component / mark that only takes the
+    # second mark class, so the record is [NULL, Anchor]
+    spec = dict(tinyfont.pool()["ttf-mark"])
+    spec["fea"] = tinyfont.FEA_MARK.replace("  pos base b <anchor 260 710> mark @TOP;\n",
+                                            "  pos base b <anchor 260 710> mark @TOP;\n  pos base c <anchor 270 -35> mark @BOT;\n"
+                                            "  pos ligature d <anchor NULL> mark @TOP <anchor 205 -45> mark @BOT ligComponent <anchor 410 690> mark @TOP;\n").replace(
+        "feature mkmk { pos mark m <anchor 100 900> mark @TOP; } mkmk;", "feature mkmk { pos mark m <anchor 100 900> mark @TOP; pos mark n <anchor 130 -250> mark @BOT; } mkmk;").replace(
+        "GlyphClassDef [a b c d e], , [m n], ;", "GlyphClassDef [a b c e], [d], [m n], ;")
+    assert spec["fea"] != tinyfont.FEA_MARK
+    _FONTS["tiny:ttf-mark-null-first"] = tinyfont.build_bytes(spec)
     # a variable font with vertical metrics: varLib builds a VVAR (no advance-height map: the
     # delta sets are indexed by glyph ID)
     _FONTS["tiny:vf-vmtx-1axis"] = tinyfont.build_bytes({"kind": "ttf", "shapes": "mixed", "glyphs": ["a", "b", "c", "d", "e"], "vmtx": True, "fea": tinyfont.FEA_VAR,
@@ -128,7 +138,15 @@ def var_locations(font):
 def alphabet(font, n=6):
     cmap = font.getBestCmap() or {}
     cps = sorted(cmap)
-    return cps[:n]
+    out = cps[:n]
+    # ... plus up to two characters of combining marks (GDEF class 3) beyond those: mark attachment
+    # is only observable in strings that contain the marks
+    try:
+        classes = font["GDEF"].table.GlyphClassDef.classDefs if "GDEF" in font and font["GDEF"].table.GlyphClassDef else {}
+    except Exception:
+        classes = {}
+    extra = [cp for cp in cps[n:] if classes.get(cmap[cp]) == 3][:2]
+    return out + extra
 
 
 def snapshot(data, strlen, order=None):
